@@ -96,57 +96,140 @@ Definition last_owner (ps : list string) (st : store) (n : string) : option stri
   fold_left (fun acc e => if owns ps n e then Some (e_key e) else acc) st None.
 
 Lemma sensor_table_gen ps n : n <> "" -> forall st t acc, tbl_get t n = acc ->
-  tbl_get (fold_left (sensor_step ps) st t) n
+  tbl_get (fold_left (sensor_step_unranked ps) st t) n
   = fold_left (fun acc e => if owns ps n e then Some (e_key e) else acc) st acc.
 Proof.
   intros Hn. induction st as [|e st IH]; intros t acc H; simpl; [exact H|].
-  apply IH. unfold sensor_step, owns. destruct (e_mut e); simpl; [|exact H].
+  apply IH. unfold sensor_step_unranked, owns. destruct (e_mut e); simpl; [|exact H].
   destruct (String.eqb_spec (shorten_key ps (e_key e)) "") as [E|E].
   - rewrite E. destruct (String.eqb_spec "" n) as [<-|_]; [contradiction|exact H].
   - rewrite tbl_get_set. destruct (String.eqb (shorten_key ps (e_key e)) n); [reflexivity|exact H].
 Qed.
 
-Lemma sensor_table_last_owner ps st n : n <> "" -> tbl_get (sensor_table ps st) n = last_owner ps st n.
-Proof. intros Hn. unfold sensor_table, last_owner. apply sensor_table_gen; auto. Qed.
+(* BEFORE the fix: the last mutable key in key order whose shortened name is n won ... *)
+Lemma sensor_table_unranked_last_owner ps st n : n <> "" ->
+  tbl_get (sensor_table_unranked ps st) n = last_owner ps st n.
+Proof. intros Hn. unfold sensor_table_unranked, last_owner. apply sensor_table_gen; auto. Qed.
 
-Lemma fold_owner_stable ps n k : forall st,
-  (forall e, In e st -> owns ps n e = true -> e_key e = k) ->
-  fold_left (fun acc e => if owns ps n e then Some (e_key e) else acc) st (Some k) = Some k.
-Proof.
-  induction st as [|e st IH]; intros Hu; simpl; [reflexivity|].
-  destruct (owns ps n e) eqn:O.
-  - rewrite (Hu e (or_introl eq_refl) O). apply IH. intros; apply Hu; [right|]; assumption.
-  - apply IH. intros; apply Hu; [right|]; assumption.
-Qed.
-
-Lemma last_owner_unique ps n k : forall st acc,
-  (forall e, In e st -> owns ps n e = true -> e_key e = k) ->
-  (exists e, In e st /\ owns ps n e = true) ->
-  fold_left (fun acc e => if owns ps n e then Some (e_key e) else acc) st acc = Some k.
-Proof.
-  induction st as [|e st IH]; intros acc Hu (x & Hin & Hx); [destruct Hin|]. simpl.
-  destruct (owns ps n e) eqn:O.
-  - rewrite (Hu e (or_introl eq_refl) O). apply fold_owner_stable. intros; apply Hu; [right|]; assumption.
-  - apply IH; [intros; apply Hu; [right|]; assumption|].
-    destruct Hin as [->|Hin]; [congruence|]. exists x. split; assumption.
-Qed.
-
-(* a sensor defined in ONE namespace only is found, whatever else the telstate holds *)
-Lemma sensor_single_namespace ps st n k : n <> "" ->
-  (forall e, In e st -> owns ps n e = true -> e_key e = k) ->
-  (exists e, In e st /\ owns ps n e = true) ->
-  tbl_get (sensor_table ps st) n = Some k.
-Proof.
-  intros Hn Hu Hex. rewrite sensor_table_last_owner by exact Hn. apply last_owner_unique; assumption.
-Qed.
-
-(* ... but with two namespaces defining it the LESS specific one can win: stream s inheriting base,
-   sensor foo defined under cb_base_ and under cb_ *)
+(* ... so that with two namespaces defining a sensor the LESS specific one could win (finding F6):
+   stream s inheriting base, sensor foo defined under cb_base_ and under cb_ *)
 Definition f6_prefixes : list string := spec_prefixes "cb" ["s"; "base"].
 Definition f6_store : store := [mkEntry "cb_base_foo" true 1; mkEntry "cb_foo" true 2].
-Lemma sensor_most_specific_refuted :
-  exists ps st n, spec_sensor st ps n = Some "cb_base_foo" /\ tbl_get (sensor_table ps st) n = Some "cb_foo".
-Proof. exists f6_prefixes, f6_store, "foo". split; reflexivity. Qed.
+Lemma sensor_refuted_before_fix :
+  exists ps st n, spec_sensor st ps n = Some "cb_base_foo"
+                  /\ tbl_get (sensor_table_unranked ps st) n = Some "cb_foo"
+                  /\ sensor_key ps st n = Some "cb_base_foo".
+Proof. exists f6_prefixes, f6_store, "foo". repeat split; reflexivity. Qed.
+
+(* ---------- AFTER the fix: ranked table ---------- *)
+Lemma rfind_filter_ne (t : rtable) m n : String.eqb m n = false ->
+  find (fun p => String.eqb (fst p) n) (filter (fun p => negb (String.eqb (fst p) m)) t)
+  = find (fun p => String.eqb (fst p) n) t.
+Proof.
+  intros Hmn. induction t as [|[a b] t IH]; simpl; [reflexivity|].
+  destruct (String.eqb_spec a m) as [->|Ham]; simpl.
+  - rewrite Hmn. exact IH.
+  - destruct (String.eqb a n); [reflexivity|exact IH].
+Qed.
+
+Lemma rtbl_get_set t m v n : rtbl_get (rtbl_set t m v) n = if String.eqb m n then Some v else rtbl_get t n.
+Proof.
+  unfold rtbl_get, rtbl_set. simpl. destruct (String.eqb m n) eqn:E; [reflexivity|].
+  rewrite rfind_filter_ne by exact E. reflexivity.
+Qed.
+
+Definition bstep (ps : list string) (n : string) (acc : option (nat * string)) (e : entry) : option (nat * string) :=
+  if owns ps n e then
+    match key_rank ps (e_key e) with Some r => better acc r (e_key e) | None => acc end
+  else acc.
+
+Lemma better_some acc r k : exists v, better acc r k = Some v.
+Proof. unfold better. destruct acc as [[r0 k0]|]; [destruct (Nat.leb r r0)|]; eauto. Qed.
+
+Lemma sensor_table_gen_r ps n : n <> "" -> forall st t acc, rtbl_get t n = acc ->
+  rtbl_get (fold_left (sensor_step ps) st t) n = fold_left (bstep ps n) st acc.
+Proof.
+  intros Hn. induction st as [|e st IH]; intros t acc H; simpl; [exact H|].
+  apply IH. unfold sensor_step, bstep, owns. destruct (e_mut e); simpl; [|exact H].
+  destruct (String.eqb_spec (shorten_key ps (e_key e)) "") as [E|E].
+  - rewrite E. destruct (String.eqb_spec "" n) as [<-|_]; [contradiction|exact H].
+  - destruct (key_rank ps (e_key e)) as [r|].
+    + destruct (better_some (rtbl_get t (shorten_key ps (e_key e))) r (e_key e)) as [v Hv]. rewrite Hv.
+      rewrite rtbl_get_set. destruct (String.eqb_spec (shorten_key ps (e_key e)) n) as [En|En].
+      * rewrite <- Hv, En, H. reflexivity.
+      * exact H.
+    + destruct (String.eqb (shorten_key ps (e_key e)) n); exact H.
+Qed.
+
+Lemma shorten_rank ps k : shorten_key ps k <> "" -> exists r, key_rank ps k = Some r.
+Proof.
+  induction ps as [|p ps IH]; simpl; [intros H; contradiction|].
+  destruct (String.prefix p k); [eauto|]. intros H. destruct (IH H) as [r Hr]. rewrite Hr. simpl. eauto.
+Qed.
+
+(* invariant of the scan: acc is an owner of minimal rank among those seen *)
+Definition best_inv (ps : list string) (n : string) (seen : store) (acc : option (nat * string)) : Prop :=
+  match acc with
+  | None => forall e, In e seen -> owns ps n e = false
+  | Some (r, k) =>
+      (exists e, In e seen /\ owns ps n e = true /\ e_key e = k /\ key_rank ps k = Some r) /\
+      (forall e, In e seen -> owns ps n e = true -> exists r', key_rank ps (e_key e) = Some r' /\ (r <= r')%nat)
+  end.
+
+Lemma best_inv_step ps n seen acc e : n <> "" ->
+  best_inv ps n seen acc -> best_inv ps n (seen ++ [e]) (bstep ps n acc e).
+Proof.
+  intros Hn H. unfold bstep. destruct (owns ps n e) eqn:O.
+  - assert (Hr : exists r, key_rank ps (e_key e) = Some r).
+    { apply shorten_rank. unfold owns in O. apply andb_true_iff in O. destruct O as [_ O].
+      apply String.eqb_eq in O. rewrite O. exact Hn. }
+    destruct Hr as [r Hr]. rewrite Hr. unfold better.
+    destruct acc as [[r0 k0]|]; simpl in H.
+    + destruct H as [(e0 & Hin0 & O0 & K0 & R0) Hmin].
+      destruct (Nat.leb r r0) eqn:L; simpl.
+      * apply Nat.leb_le in L. split.
+        -- exists e. split; [apply in_or_app; right; left; reflexivity|]. repeat split; auto.
+        -- intros x Hx Ox. apply in_app_or in Hx. destruct Hx as [Hx|[<-|[]]].
+           ++ destruct (Hmin x Hx Ox) as (r' & A & B). exists r'. split; [exact A|lia].
+           ++ exists r. split; [exact Hr|lia].
+      * apply Nat.leb_gt in L. split.
+        -- exists e0. split; [apply in_or_app; left; exact Hin0|]. repeat split; auto.
+        -- intros x Hx Ox. apply in_app_or in Hx. destruct Hx as [Hx|[<-|[]]].
+           ++ exact (Hmin x Hx Ox).
+           ++ exists r. split; [exact Hr|lia].
+    + simpl. split.
+      * exists e. split; [apply in_or_app; right; left; reflexivity|]. repeat split; auto.
+      * intros x Hx Ox. apply in_app_or in Hx. destruct Hx as [Hx|[<-|[]]].
+        -- rewrite (H x Hx) in Ox. discriminate.
+        -- exists r. split; [exact Hr|lia].
+  - destruct acc as [[r0 k0]|]; simpl in *.
+    + destruct H as [(e0 & Hin0 & O0 & K0 & R0) Hmin]. split.
+      * exists e0. split; [apply in_or_app; left; exact Hin0|]. repeat split; auto.
+      * intros x Hx Ox. apply in_app_or in Hx. destruct Hx as [Hx|[<-|[]]]; [exact (Hmin x Hx Ox)|congruence].
+    + intros x Hx. apply in_app_or in Hx. destruct Hx as [Hx|[<-|[]]]; [exact (H x Hx)|exact O].
+Qed.
+
+Lemma best_inv_fold ps n : n <> "" -> forall st seen acc,
+  best_inv ps n seen acc -> best_inv ps n (seen ++ st) (fold_left (bstep ps n) st acc).
+Proof.
+  intros Hn. induction st as [|e st IH]; intros seen acc H; simpl.
+  - rewrite app_nil_r. exact H.
+  - replace (seen ++ e :: st) with ((seen ++ [e]) ++ st) by (rewrite <- app_assoc; reflexivity).
+    apply IH. apply best_inv_step; assumption.
+Qed.
+
+(* AFTER the fix: the sensor [n] is read from a key that defines it in the MOST SPECIFIC namespace *)
+Lemma sensor_most_specific ps st n : n <> "" ->
+  match rtbl_get (sensor_table ps st) n with
+  | None => forall e, In e st -> owns ps n e = false
+  | Some (r, k) =>
+      (exists e, In e st /\ owns ps n e = true /\ e_key e = k /\ key_rank ps k = Some r) /\
+      (forall e, In e st -> owns ps n e = true -> exists r', key_rank ps (e_key e) = Some r' /\ (r <= r')%nat)
+  end.
+Proof.
+  intros Hn. unfold sensor_table. rewrite (sensor_table_gen_r ps n Hn st [] None eq_refl).
+  apply (best_inv_fold ps n Hn st [] None). simpl. intros e [].
+Qed.
 
 (* ---------- id resolution ---------- *)
 Lemma id_precedence kw url file :
